@@ -747,6 +747,65 @@ pub fn impl_helpers_rule(cx: &Cx, rep: &mut Report) {
 }
 
 /// every `bail!` carries a non-empty literal message
+/// DM-impl-args: the requested set on an impl item - `Op` in the list <=> the binary form is requested, `OpAssign` <=> the
+/// assign form, an operator of another family is refused, `dump` is handed on
+pub fn impl_args_rule(cx: &Cx, rep: &mut Report) {
+    let ix = &cx.ix;
+    let Some(f) = find_fn(ix, &|f| f.self_ty.as_deref() == Some("Args") && sig_text(f).contains("TokenStream") && sig_text(f).ends_with("->Result<Args>")) else {
+        rep.fail("unanalysable", "Args", "from_attr_args", "parser of the impl item's requested set (TokenStream, Op) -> Result<Args> not found", "item_impl.rs", json!({})); return;
+    };
+    let Some(al) = ix.structs.get("ArgList").or_else(|| ix.structs.values().find(|s| s.fields.iter().any(|(_, t)| crate::index::ty_str(t) == "Vec<Ident>") && s.fields.iter().any(|(_, t)| crate::index::ty_str(t) == "bool") && s.fields.len() == 2)) else {
+        rep.fail("unanalysable", "ArgList", "struct", "argument-list struct { Vec<Ident>, bool } not found", "item_impl.rs", json!({})); return;
+    };
+    let items_f = al.fields.iter().find(|(_, t)| crate::index::ty_str(t) == "Vec<Ident>").map(|(n, _)| n.clone()).unwrap_or_default();
+    let dump_f = al.fields.iter().find(|(_, t)| crate::index::ty_str(t) == "bool").map(|(n, _)| n.clone()).unwrap_or_default();
+    let op_parser = find_fn(ix, &|g| g.self_ty.as_deref() == Some("Op") && sig_text(g).contains("&Ident") && sig_text(g).contains("Result<Self>"));
+    let (Some(op_f), Some(form_f)) = (ix.structs.get("Op").and_then(|s| s.fields.iter().find(|f| crate::index::ty_str(&f.1) == "BinaryOp").map(|f| f.0.clone())), ix.structs.get("Op").and_then(|s| s.fields.iter().find(|f| crate::index::ty_str(&f.1) == "OpForm").map(|f| f.0.clone()))) else { rep.fail("unanalysable", "Op", "struct", "struct Op { BinaryOp, OpForm } not found", "item_impl.rs", json!({})); return; };
+    let mut judged = 0;
+    for n in 0..=2usize {
+        let mut ev = mk_ev(ix);
+        if let Some(p) = &op_parser { ev.stops.push((p.qual.clone(), "ret")); }
+        let items: Vec<Val> = (1..=n).map(|k| Val::Sym { ty: Ty::Named("Ident".into(), vec![]), path: format!("items[#{k}]") }).collect();
+        ev.ext_vals.insert("parse2".into(), Val::ok(Val::Struct { name: al.name.clone(), fields: vec![(items_f.clone(), Val::Array(items)), (dump_f.clone(), Val::Atom(F::A("list.dump".into())))] }));
+        let base = Val::Struct { name: "Op".into(), fields: vec![(op_f.clone(), Val::Enum { ty: "BinaryOp".into(), var: "Sub".into(), args: vec![] }), (form_f.clone(), Val::Enum { ty: "OpForm".into(), var: "Binary".into(), args: vec![] })] };
+        let outs = ev.call_fn(St::new(), &f, None, vec![sym("TokenStream", "attr"), base]);
+        rep.unanalysable(&f.qual, &ev.unsupported.borrow());
+        for (st, fl) in &outs {
+            let v = match fl { Flow::Val(v) | Flow::Ret(v) => v, _ => continue };
+            // per listed item: same family? which form?
+            let mut any_binary = false; let mut any_assign = false; let mut foreign = false; let mut parse_failed = false; let mut undecided = false;
+            for k in 1..=n {
+                let key = format!("items[#{k}]");
+                let ok = st.cond.iter().find(|(a, _)| a.starts_with("ok(") && a.contains(&key)).map(|(_, b)| *b);
+                if ok == Some(false) { parse_failed = true; break; }
+                let same = st.cond.iter().find(|(a, _)| a.contains(&key) && a.ends_with(" is Sub")).map(|(_, b)| *b);
+                match same { Some(false) => { foreign = true; break; } Some(true) => {} None => { undecided = true; } }
+                let fb = st.cond.iter().find(|(a, _)| a.contains(&key) && a.ends_with(" is Binary")).map(|(_, b)| *b);
+                let fa = st.cond.iter().find(|(a, _)| a.contains(&key) && a.ends_with(" is Assign")).map(|(_, b)| *b);
+                match (fb, fa) { (Some(true), _) => any_binary = true, (_, Some(true)) => any_assign = true, (Some(false), None) => any_assign = true, _ => undecided = true }
+            }
+            match v {
+                Val::Enum { var, args, .. } if var == "Ok" => {
+                    judged += 1;
+                    let Some(Val::Struct { fields, .. }) = args.first() else { rep.fail("DM-impl-args", &f.qual, "result", "the parser does not return the argument struct", &site(&f), json!({})); continue };
+                    let get = |name: &str| fields.iter().find(|(n, _)| n.contains(name)).map(|(_, v)| v.short());
+                    let ok = !parse_failed && !foreign && !undecided
+                        && get("binary") == Some(if any_binary { "true" } else { "false" }.to_string())
+                        && get("assign") == Some(if any_assign { "true" } else { "false" }.to_string())
+                        && get("dump").map(|d| d.contains("list.dump")).unwrap_or(false);
+                    rep.check(ok, "DM-impl-args", &f.qual, &format!("requested-set:{n}-items"), &format!("with {n} listed operator(s) the requested forms are not `binary iff Op is listed, assign iff OpAssign is listed, dump as given` (binary listed: {any_binary}, assign listed: {any_assign}; result {})", args[0].short().chars().take(160).collect::<String>()), &site(&f), json!({"path": crate::model::cond_str(&st.cond)}));
+                }
+                Val::Enum { var, .. } if var == "Err" => {
+                    judged += 1;
+                    rep.check(parse_failed || foreign || n == 0 && false, "DM-impl-args", &f.qual, "refusal", "a list of operators of the impl's own family is refused", &site(&f), json!({"path": crate::model::cond_str(&st.cond)}));
+                }
+                _ => {}
+            }
+        }
+    }
+    rep.floor("impl-item requested-set paths judged", judged, 8);
+}
+
 pub fn bail_messages_rule(cx: &Cx, rep: &mut Report) {
     use syn::visit::Visit;
     struct V { bad: Vec<String>, n: usize, file: String }
